@@ -145,9 +145,12 @@ class TrX(pyz.Tr):
             return super().expr(e, env)
         if isinstance(e, ast.Compare) and len(e.ops) == 1:
             op, l_, r_ = e.ops[0], e.left, e.comparators[0]
-            # type(index) in TYPES / type(index) is (not) T
-            if isinstance(l_, ast.Call) and ast.unparse(l_.func) == "type" and len(l_.args) == 1:
-                a, ta = self.expr(l_.args[0], env)
+            # type(index) in TYPES / type(index) is (not) T   (also through `t = type(index)`)
+            if (isinstance(l_, ast.Call) and ast.unparse(l_.func) == "type" and len(l_.args) == 1
+                    and not l_.keywords) \
+                    or (isinstance(l_, ast.Name) and l_.id in env and env[l_.id][1].startswith("TY_")):
+                a, ta = self.expr(l_, env)
+                ta = ta[3:]
                 b, tb = self.expr(r_, env)
                 if ta == "IX" and tb == "KS" and isinstance(op, (ast.In, ast.NotIn)):
                     t = "(ix_type_in %s %s)" % (a, b)
@@ -217,6 +220,10 @@ class TrX(pyz.Tr):
                 return env[ast.unparse(e)]
             f = e.func
             callee = ast.unparse(f)
+            if callee == "type" and len(e.args) == 1 and not e.keywords and "type" not in env:
+                # the class of a value: only usable in the type tests above
+                a, ta = self.expr(e.args[0], env)
+                return a, "TY_" + ta
             if isinstance(f, ast.Attribute) and f.attr == "intersection" and len(e.args) == 1 \
                     and isinstance(f.value, ast.Call) and ast.unparse(f.value.func) == "set" \
                     and len(f.value.args) == 1:
@@ -468,7 +475,8 @@ class TrX(pyz.Tr):
                     if self.kind == "inl":
                         body, bty = self.lift(body, bty)
                     return "(match %s with Err => Err | Ok %s => %s end)" % (t, cname(tg.id), body), bty
-                if t is not None and ty in ("STRS", "KS", "TYS", "NL", "MKL", "ML", "IX", "MK", "K"):
+                if t is not None and (ty in ("STRS", "KS", "TYS", "NL", "MKL", "ML", "IX", "MK", "K")
+                                      or ty.startswith("TY_")):
                     env2 = dict(env)
                     env2[tg.id] = (t, ty)      # pure value: substituted (no let)
                     return self.block(rest, env2)
